@@ -8,6 +8,7 @@ import Rox.Lemmas.RangeOrd
 import Rox.Lemmas.Shape
 import Rox.Lemmas.RangeNest
 import Rox.Lemmas.Shift
+import Rox.Lemmas.ShiftErr
 import Rox.Props.C01
 
 namespace Rox.Props.C13
@@ -117,5 +118,14 @@ theorem shift_equivariance (txt : Bytes) (opt : Opt) (d : Doc) (k : Nat)
     parse Generated.tables (List.replicate k 32 ++ txt) opt =
       .ok (Rox.Lemmas.shiftDoc k opt.positions d) :=
   Rox.Lemmas.parse_shift Generated.tables (by decide) txt opt d k hbom hdecl h
+
+/-- **Shift equivariance, line breaks**: the same with `k` line feeds in front. -/
+theorem shift_equivariance_line_breaks (txt : Bytes) (opt : Opt) (d : Doc) (k : Nat)
+    (hbom : Stream.startsWith ⟨0, txt⟩ Lit.bom = false)
+    (hdecl : Stream.startsWith ⟨0, txt⟩ Lit.xmlDecl = false)
+    (h : parse Generated.tables txt opt = .ok d) :
+    parse Generated.tables (List.replicate k 10 ++ txt) opt =
+      .ok (Rox.Lemmas.shiftDoc k opt.positions d) :=
+  Rox.Lemmas.parse_shift_nl Generated.tables (by decide) txt opt d k hbom hdecl h
 
 end Rox.Props.C13
